@@ -74,7 +74,8 @@ TARGETS = ['NoneType', 'bool', 'int', 'float', 'complex', 'str', 'bytes', 'bytea
            'Path:PurePosixPath', {'pattern': None}, {'seq': ['list', 'int']}, {'seq': ['list', 'str']}, {'seq': ['tuple', 'any']},
            {'seq': ['set', 'int']}, {'seq': ['frozenset', 'str']}, {'seq': ['deque', 'any']}, {'tuple': ['int', 'str']}, {'tuple': []},
            {'map': ['dict', ['str', 'int']]}, {'map': ['Mapping', []]}, {'map': ['Counter', ['str']]},
-           {'lit': [{'i': '1'}, 'a', None]}, 'any']
+           {'lit': [{'i': '1'}, 'a', None]}, 'any',
+           {'seq': ['tuple', None]}, {'seq': ['list', None]}, {'map': ['dict', None]}, {'seq': ['set', None]}]
 
 
 def twin_stream(seed, n, op='from_data'):
@@ -120,13 +121,16 @@ def with_defaultdicts(scens, seed):
             return [walk(x) for x in j]
         if isinstance(j, dict):
             if 'd' in j and all(isinstance(k, str) for k, _ in j['d']) and r.random() < 0.5:
-                return {'map': ['defaultdict:int', [[k, walk(v)] for k, v in j['d']]]}
+                # a defaultdict whose __missing__ inserts; or a mapping that is not a dict at all (read-only proxy, UserDict)
+                kind = r.choice(['defaultdict:int', 'defaultdict:int', 'mappingproxy', 'UserDict'])
+                return {'map': [kind, [[k, walk(v)] for k, v in j['d']]]}
             return {k: walk(v) for k, v in j.items()}
         return j
     out = []
     for s in scens:
         if '"d"' in json.dumps(s.get('val')):
-            out.append(dict(s, val=walk(s['val']), id=s['id'] + 'dd', stream='defaultdict-input'))
+            # what `.copy()` of a non-dict mapping is (and so which object an error leaf shows) is not modelled: verdict and value only
+            out.append(dict(s, val=walk(s['val']), id=s['id'] + 'dd', stream='defaultdict-input', project='verdict'))
     return out
 
 
@@ -344,10 +348,10 @@ PLUGS = {
                 conv_stream(seed + 1, sizes(tier, 300, 3000), 'build', []) + twin_stream(seed, sizes(tier, 150, 2000)) +
                 gen.scenarios_tuplelayout(seed, sizes(tier, 300, 4000)) +
                 with_oracles(gen.scenarios_tagged(seed + 4, sizes(tier, 400, 6000)), [], op='from_data') +
-                gen.scenarios_unsupported(seed, sizes(tier, 200, 2000)),
+                gen.scenarios_unsupported(seed, sizes(tier, 200, 2000)) + [dict(sc, oracles=[]) for sc in matrix_stream(seed + 1)],
                 project=proj_verdict_value, oracles=[], disagreement_is_failure=True),
     'C02': dict(streams=lambda seed, tier: matrix_stream(seed) + conv_stream(seed, sizes(tier, 500, 10000), 'from_data', []) +
-                gen.scenarios_tuplelayout(seed + 2, sizes(tier, 500, 8000)),
+                gen.scenarios_tuplelayout(seed + 2, sizes(tier, 500, 8000)) + gen.scenarios_generic_nested(seed, sizes(tier, 300, 4000)),
                 project=proj_verdict_value, oracles=[], disagreement_is_failure=True, exhaustive_part='matrix'),
     'C03': dict(streams=lambda seed, tier: conv_stream(seed, sizes(tier, 1500, 30000), 'try_collect', ['c03']) +
                 with_oracles(gen.scenarios_cond(seed, sizes(tier, 700, 10000)), ['c03'], op='try_collect') +
@@ -371,9 +375,11 @@ PLUGS = {
                 project=proj_full, oracles=[], disagreement_is_failure=True, post_oracle=rt_oracle),
     'C06': dict(streams=lambda seed, tier: valid_stream(seed, sizes(tier, 2000, 30000), 'convert2', history=0.4) + gen.scenarios_union_history(seed, sizes(tier, 300, 4000), op='convert2') +
                 [dict(s, op='convert2') for s in gen.scenarios_tuplelayout(seed, sizes(tier, 500, 8000))] +
-                twin_stream(seed, sizes(tier, 100, 1500), op='convert2'),
+                twin_stream(seed, sizes(tier, 100, 1500), op='convert2') +
+                [dict(sc, op='convert2') for sc in gen.scenarios_tagged(seed + 4, sizes(tier, 500, 8000))],
                 project=proj_full, oracles=[], disagreement_is_failure=True, post_oracle=rt_oracle),
     'C07': dict(streams=lambda seed, tier: conv_stream(seed, sizes(tier, 1500, 30000), 'try_collect', ['c07']) +
+                with_oracles(gen.scenarios_special_unions(seed, sizes(tier, 400, 5000), op='try_collect'), ['c07']) +
                 with_oracles(gen.scenarios_shapes(seed, sizes(tier, 800, 12000), op='try_collect'), ['c07']) +
                 with_oracles(gen.scenarios_tuplelayout(seed, sizes(tier, 500, 8000), op='try_collect'), ['c07']),
                 project=proj_full, oracles=['c07'], disagreement_is_failure=True, decided_by=['c07']),
@@ -385,6 +391,7 @@ PLUGS = {
                 conv_stream(seed + 2, sizes(tier, 400, 10000), 'roundtrip', []) +
                 gen.scenarios_tagged(seed, sizes(tier, 600, 8000)) + gen.scenarios_shapes(seed, sizes(tier, 300, 4000), op='from_data') +
                 gen.scenarios_construct(seed, sizes(tier, 300, 4000)) + gen.scenarios_touch(seed, sizes(tier, 400, 5000)) +
+                gen.scenarios_instances_into(seed, sizes(tier, 200, 2500)) + gen.scenarios_tuplelayout(seed + 6, sizes(tier, 400, 5000)) +
                 with_defaultdicts(gen.scenarios_tagged(seed + 3, sizes(tier, 400, 5000)) + gen.scenarios_shapes(seed + 3, sizes(tier, 500, 6000), op='from_data') +
                                   gen.scenarios_conv(seed + 3, sizes(tier, 800, 10000)), seed),
                 project=proj_verdict_value, oracles=['c09'], disagreement_is_failure=False),
@@ -393,11 +400,14 @@ PLUGS = {
                 project=proj_full, oracles=['c10'], disagreement_is_failure=True),
     'C11': dict(streams=lambda seed, tier: with_history(union_stream(seed, sizes(tier, 1200, 20000)), seed) + twin_stream(seed, sizes(tier, 100, 1500)) +
                 with_history(union_stream(seed + 7, sizes(tier, 300, 5000), op='roundtrip'), seed + 1, 0.5) + gen.scenarios_union_history(seed, sizes(tier, 250, 3000)) +
-                [sc for sc in gen.scenarios_tagged(seed + 4, sizes(tier, 1200, 15000)) if 'union' in sc['ty']],
+                [sc for sc in gen.scenarios_tagged(seed + 4, sizes(tier, 1200, 15000)) if 'union' in sc['ty']] +
+                with_oracles(gen.scenarios_special_unions(seed, sizes(tier, 400, 5000)), ['c11']),
                 project=proj_verdict_value, oracles=['c11'], disagreement_is_failure=True),
-    'C12': dict(streams=lambda seed, tier: gen.scenarios_tagged(seed, sizes(tier, 1500, 25000)),
+    'C12': dict(streams=lambda seed, tier: gen.scenarios_tagged(seed, sizes(tier, 1500, 25000)) +
+                with_defaultdicts(gen.scenarios_tagged(seed + 9, sizes(tier, 600, 8000)), seed),
                 project=proj_full, oracles=[], disagreement_is_failure=True),
-    'C13': dict(streams=lambda seed, tier: gen.scenarios_cond(seed, sizes(tier, 2000, 30000)) + gen.scenarios_cond_twins(seed, sizes(tier, 600, 8000)),
+    'C13': dict(streams=lambda seed, tier: gen.scenarios_cond(seed, sizes(tier, 2000, 30000)) + gen.scenarios_cond_twins(seed, sizes(tier, 600, 8000)) +
+                [sc for sc in gen.scenarios_handlers(seed, sizes(tier, 2500, 30000)) if '"cond"' in json.dumps(sc['ty'])],
                 project=proj_full, oracles=['c13'], disagreement_is_failure=True),
     'C14': dict(streams=lambda seed, tier: with_oracles(gen.scenarios_construct(seed, sizes(tier, 1500, 25000)), ['c14']) +
                 gen.scenarios_tuplelayout(seed + 2, sizes(tier, 400, 6000)) + gen.scenarios_inherited_hook(seed, sizes(tier, 200, 3000), op='from_data'),
@@ -411,7 +421,8 @@ PLUGS = {
                 gen.scenarios_hashmut(seed, sizes(tier, 60, 600)) +
                 gen.scenarios_process(seed, sizes(tier, 300, 4000), generic_share=0.2),
                 project=proj_full, oracles=['c16'], disagreement_is_failure=True, exhaustive_part='hashcube'),
-    'C17': dict(streams=lambda seed, tier: gen.scenarios_process(seed, sizes(tier, 1500, 25000), generic_share=0.7),
+    'C17': dict(streams=lambda seed, tier: gen.scenarios_process(seed, sizes(tier, 1500, 25000), generic_share=0.7) +
+                gen.scenarios_generic_nested(seed, sizes(tier, 300, 4000)),
                 project=proj_full, oracles=[], disagreement_is_failure=True),
     'C18': dict(streams=lambda seed, tier: gen.scenarios_handlers(seed, sizes(tier, 2500, 30000)) + gen.scenarios_reach(seed, sizes(tier, 500, 6000)) +
                 [s for s in gen.scenarios_process(seed, sizes(tier, 600, 6000), generic_share=0.0) if 'custom' in json.dumps(s['decls'])],
@@ -459,7 +470,7 @@ def judge(pid, plug, res, failing, disagreements, hist, oracle_hits):
         for name, verdict in orc.items():
             if verdict is None:
                 continue
-            if name in plug['oracles'] or name in ('post', 'rep') or (name == 'c09' and pid == 'C09'):
+            if name in plug['oracles'] or name in ('post', 'rep', 'expect') or (name == 'c09' and pid == 'C09'):
                 oracle_hits[name] += 1
                 failing.append({'kind': 'property-observed-failing', 'oracle': name, 'detail': verdict, 'scenario': slim(sc),
                                 'impl': iout})
@@ -478,7 +489,11 @@ def judge(pid, plug, res, failing, disagreements, hist, oracle_hits):
 
 
 def slim(sc):
-    return {k: v for k, v in sc.items() if k in ('id', 'decl', 'op', 'ty', 'val', 'name', 'style', 'spell', 'handlers', 'stream', 'oracles', 'cell', 'args')}
+    """the scenario as it has to be given to replay it: everything but what the harness derived while running it"""
+    out = {k: v for k, v in sc.items() if not k.startswith('_') and k not in ('env', 'ops')}
+    if 'ty_declared' in out:      # replay from the type as it was WRITTEN (the description of the live type is derived again)
+        out['ty'] = out.pop('ty_declared')
+    return out
 
 
 def main():
@@ -500,7 +515,7 @@ def main():
             return
         res = corr.run_scenarios([dict(sc)], project_what=None)
         failing, dis, hist, hits = [], [], collections.defaultdict(collections.Counter), collections.Counter()
-        res = [(s, i, m, corr.compare_projected(s, i, m, plug['project'])) for s, i, m, _ in res]
+        res = [(s, i, m, corr.compare_projected(s, i, m, proj_verdict_value if s.get('project') == 'verdict' else plug['project'])) for s, i, m, _ in res]
         judge(a.pid, plug, res, failing, dis, hist, hits)
         print(json.dumps({'ok': True, 'still_fails': bool(failing), 'failing': failing[:2], 'impl': res[0][1]}, ensure_ascii=False))
         return
@@ -522,7 +537,7 @@ def main():
     for i in range(0, len(scens), CH):
         chunk = scens[i:i + CH]
         res = corr.run_scenarios(chunk, project_what=None)
-        res = [(s, io, mo, corr.compare_projected(s, io, mo, plug['project'])) for s, io, mo, _ in res]
+        res = [(s, io, mo, corr.compare_projected(s, io, mo, proj_verdict_value if s.get('project') == 'verdict' else plug['project'])) for s, io, mo, _ in res]
         judge(a.pid, plug, res, failing, disagreements, hist, oracle_hits)
         for s, io, mo, d in res:
             k = distinct_key(s)
